@@ -446,7 +446,7 @@ func obsAcceptable(o *gossipv1.SignedObservation, applicable *setInfo) (ethcommo
 
 // ------------------------------------------------------------------ inbound VAA builders
 
-var inboundKinds = []string{"quorum", "quorum", "all", "quorum-1", "prev-set", "wrong-order", "dup-signer", "outsider", "garbage", "truncated", "flip-body", "other-subset", "nosigs", "index-oob"}
+var inboundKinds = []string{"quorum", "quorum", "all", "quorum-1", "prev-set", "wrong-order", "dup-signer", "outsider", "garbage", "truncated", "flip-body", "other-subset", "nosigs", "index-oob", "dup-last", "swap-last-two", "pad-with-last"}
 
 func subset(n, k int, seed uint64) []int {
 	if k > n {
@@ -517,6 +517,25 @@ func (e *penv) mkInbound(m *msgInfo, kind string, seed uint64) []byte {
 			pos[1] = pos[0]
 		} else {
 			pos = append(pos, pos...)
+		}
+		return signedVAA(m, set, set.Index, pos)
+	case "dup-last": // the signer with the highest index appears twice (all of them, so that it is the last guardian of the set)
+		pos := subset(n, n, seed)
+		pos = append(pos, pos[len(pos)-1])
+		return signedVAA(m, set, set.Index, pos)
+	case "swap-last-two": // every member signs, the two highest indices in descending order
+		pos := subset(n, n, seed)
+		if len(pos) >= 2 {
+			pos[len(pos)-1], pos[len(pos)-2] = pos[len(pos)-2], pos[len(pos)-1]
+		}
+		return signedVAA(m, set, set.Index, pos)
+	case "pad-with-last": // fewer distinct signers than the quorum, padded to quorum length with repeats of the last guardian
+		var pos []int
+		for i := 0; i < q-2 && i < n-1; i++ {
+			pos = append(pos, i)
+		}
+		for len(pos) < q {
+			pos = append(pos, n-1)
 		}
 		return signedVAA(m, set, set.Index, pos)
 	case "index-oob":
